@@ -147,6 +147,7 @@ class Check(CheckBase):
             else:
                 be = s3c.S3Compatible('bkt', key_id='k', access_key='s', region='r1', host='h.vf.test:9000', scheme='http')
             svc = fakehttp.FakeS3('bkt', {'k': 's'}, page_size=case['page'])
+            svc.empty_page_every = [0, 2, 3][case['seed'] % 3]
             fakehttp.attach(be, svc)
             return be, (lambda: dict(svc.objects)), svc
         from replicat.backends.b2 import B2
@@ -309,6 +310,8 @@ class Check(CheckBase):
         if svc is not None:
             counters['service_requests'] = len(svc.requests)
             counters['pages_fetched'] = svc.pages
+            if getattr(svc, 'empty_pages', 0):
+                counters['empty_truncated_pages'] = svc.empty_pages
         # violations not attributed to a known mechanism first: they must never be crowded out by known ones
         violations.sort(key=lambda x: x['mechanism'] is not None)
         known_seen = {}
@@ -359,6 +362,29 @@ class Check(CheckBase):
                 be.upload_stream('d/obj', io.BytesIO(b), len(b), 7000)
             if seen['bad']:
                 break
+        # a NEW name while its streamed upload is under way: looked at from inside the payload stream's read() (so at a
+        # known point of the upload), it is either absent or complete - in exists(), in listings and in downloads
+        class Probing(io.BytesIO):
+            def read(self_, n=-1):
+                piece = super().read(n)
+                if piece and self_.tell() > len(piece):          # not the first piece: something has been written already
+                    seen['probes'] = seen.get('probes', 0) + 1
+                    ex, ls = be.exists('new/obj'), list(be.list_files('new/'))
+                    got = None
+                    if ex or ls:                       # (a download of an absent name goes through the adapter's retry waits)
+                        try:
+                            got = be.download('new/obj')
+                        except FileNotFoundError:
+                            got = None
+                    if (ex, ls, got) not in ((False, [], None), (True, ['new/obj'], c_payload)):
+                        seen['bad'] = seen['bad'] or (f'while a first upload of a name is streaming: exists={ex}, listing={ls}, download='
+                                                      f'{"absent" if got is None else str(len(got)) + " bytes"} (payload {len(c_payload)} bytes)')
+                return piece
+        c_payload = b'C' * 50_000
+        if not seen['bad']:
+            be.upload_stream('new/obj', Probing(c_payload), len(c_payload), 4096)
+            if be.download('new/obj') != c_payload:
+                seen['bad'] = 'a streamed upload of a new name stored other bytes'
         # two writers overwrite the SAME name at once (two clients, or two workers of one snapshot hitting one chunk):
         # readers still see one payload or the other, each upload completes, and the object ends up as one of the two
         werr = []
